@@ -346,17 +346,47 @@ class PVLParser(object):
                         break
                     except LexerError:
                         raise
+                    except StopIteration:
+                        raise ParseError(
+                            "Ran out of tokens before the end of the "
+                            f'Aggregation Block "{begin} = {block_name}".'
+                        )
                     except ValueError as ve:
+                        keep_parsing = False
                         try:
                             (agg, keep_parsing) = self.parse_module_post_hook(
                                 agg, tokens
                             )
-                            if not keep_parsing:
-                                raise ve
+                        except (LexerError, ParseError):
+                            raise
                         except Exception:
-                            raise ve
+                            pass
+
+                        if not keep_parsing:
+                            # The Begin-Aggregation-Statement and possibly
+                            # more have been consumed, so the caller cannot
+                            # recover from this.
+                            self._throw(
+                                tokens,
+                                f'The Aggregation Block "{block_name}" is '
+                                f"not properly ended. {ve}"
+                            )
 
         return block_name, agg
+
+    @staticmethod
+    def _throw(tokens: abc.Generator, msg: str):
+        """Throws a ValueError with *msg* into *tokens*, which surfaces
+        as a LexerError with position information.  If *tokens* is
+        already exhausted, raises a ParseError instead.
+        """
+        try:
+            tokens.throw(ValueError, msg)
+        except LexerError:
+            raise
+        except ValueError:
+            pass
+        raise ParseError(msg + " Ran out of tokens.")
 
     def parse_around_equals(self, tokens: abc.Generator) -> None:
         """Parses white space and comments on either side
@@ -417,7 +447,12 @@ class PVLParser(object):
                 ValueError, f'Expecting an equals sign after "{begin}" '
             )
 
-        block_name = next(tokens)
+        try:
+            block_name = next(tokens)
+        except StopIteration:
+            raise ParseError(
+                f'Ran out of tokens after "{begin} =", expecting a Block-Name.'
+            )
         if not block_name.is_parameter_name():
             tokens.throw(
                 ValueError,
